@@ -64,7 +64,10 @@ def confirm(d):
             mod = p.split("/")[0]
             rel = "./" + p[len(mod) + 1:]
             os.rename(os.path.join(wt, place), os.path.join(wt, place + ".off"))
-            rc, out = sh("go build %s %s && go test %s -vet=off -count=1 %s" % (ov, rel, ov, rel), cwd=os.path.join(wt, mod), env=env)
+            for attempt in range(3):  # pkg/alephium's TestDisableBlockPoller is flaky under load on the unchanged tree
+                rc, out = sh("go build %s %s && go test %s -vet=off -count=1 %s" % (ov, rel, ov, rel), cwd=os.path.join(wt, mod), env=env)
+                if rc == 0:
+                    break
             os.rename(os.path.join(wt, place + ".off"), os.path.join(wt, place))
             ok = ok and rc == 0
             outs.append(out[-300:])
